@@ -546,7 +546,9 @@ package twig
 //@   pure
 //@   ensures ret0 == mtimeOf(recv, name) && ret1 == mtimeErr(recv, name)
 //@ define cached() old(e.templates[name])
-//@ define isHit() (e.environment.cache && old(has(e.templates, name)))
+// a hit: the name is in the template map and either caching is enabled or the entry was registered by
+// the application (no loader)
+//@ define isHit() (old(has(e.templates, name)) && (e.environment.cache || cached().loader == nil))
 //@ define tsAware() implements(cached().loader, "TimestampAwareLoader")
 //@ defineraw LS() elemsArr(e.loaders), off(e.loaders)
 //@ define tplSame() (forall k string :: has(e.templates, k) == old(has(e.templates, k)) && (has(e.templates, k) ==> e.templates[k] == old(e.templates[k])))
@@ -566,18 +568,14 @@ package twig
 //@   requires e.environment != nil
 //@   ensures[C15] err == nil ==> has(e.templates, name) && e.templates[name].source == source && e.templates[name].name == name
 //@   ensures[C15] err != nil ==> tplSame()
-// what callers may rely on is the guarded statement; the property-level statement (a registered
-// template is served whatever the cache setting) is the impl contract, a recorded finding
+// a template handed to RegisterTemplate is kept when caching is enabled and always when it has no
+// loader (registered by the application)
 //@ func (*Engine).RegisterTemplate props: C15
 //@   requires e.environment != nil
 //@   nonnil template
 //@   modifies template.lastModified, entries(e.templates), e.mu
-//@   ensures[C15] e.environment.cache ==> has(e.templates, name) && e.templates[name] == template
+//@   ensures[C15] e.environment.cache || template.loader == nil ==> has(e.templates, name) && e.templates[name] == template
 //@   ensures[C15] template.lastModified == ite(old(template.lastModified) == 0, template.lastModified, old(template.lastModified))
-//@ impl (*Engine).RegisterTemplate props: C15
-//@   requires e.environment != nil
-//@   nonnil template
-//@   ensures[C15] has(e.templates, name) && e.templates[name] == template
 // a compiled template registered on an engine is served under its name with the compiled source
 //@ func (*Engine).RegisterCompiledTemplate props: C16
 //@   requires e.environment != nil
